@@ -260,8 +260,10 @@ func genStackTyped(g *tr.G, emit func(kind string, ops []string, tags ...string)
 			// every history over the alphabet to a depth
 			alpha := []string{"push:1", second, "pop", "clear", "slice", "peek:0"}
 			depth := g.Scale(3, 4)
-			if c == 'z' {
-				depth = g.Scale(4, 5)
+			if c == 'z' && (t == 'b' || t == 'o' || t == 'w') {
+				depth = g.Scale(4, 5) // (bin/check C10 thorough is close to its 15 minutes: depth 5 for three types only)
+			} else if c == 'z' {
+				depth = 4
 			}
 			var rec func(cur []string, d int)
 			rec = func(cur []string, d int) {
@@ -286,7 +288,7 @@ func genStackTyped(g *tr.G, emit func(kind string, ops []string, tags ...string)
 			if t == 'o' {
 				maxCode = 1
 			}
-			for i := 0; i < g.Scale(60, 400); i++ {
+			for i := 0; i < g.Scale(60, 200); i++ {
 				n := r.Range(3, 30)
 				ops := make([]string, 0, n)
 				for len(ops) < n {
